@@ -4,7 +4,7 @@
    objects never written after construction - is the REGENERATED effect obligation C16_effects.
    OS-level thread schedules cannot be exhibited by a Gallina model: the theorem covers all logical interleavings
    of next() calls; thread runs in the check are supporting evidence (partial, stated as such). *)
-From JP Require Import Base.Json Model.History Model.EffectLang Gen.Effects Proofs.EffectsPolicy Proofs.GenTies.
+From JP Require Import Base.Json Model.History Model.EffectLang Gen.Effects Proofs.EffectsPolicy Proofs.TieEffects.
 
 Theorem C16_effects : pure_package g_effects g_bindings = true.
 Proof. exact package_is_pure. Qed.
